@@ -90,6 +90,10 @@ structure GenFormat where
   algorithmic : List (String × String)   -- (function, AST digest): hand-modelled elsewhere
   opaqueFns   : List (String × String)   -- (function, reason): shape not understood
   statics     : List (String × String × Bool)  -- (object, type, const-qualified) with static storage
+  header      : String                   -- the format's public header
+  /-- constants the C compiler evaluates in a TU that includes just that header:
+      `sizeof:T`, `offsetof_payload:T`, `macro:NAME`, `enum:NAME`, `unsigned:T` -/
+  facts       : List (String × Int)
   deriving Repr
 
 /-! ### meaning -/
@@ -123,5 +127,74 @@ def GenFormat.findSetter (g : GenFormat) (fn : String) : Option Setter :=
 
 def GenFormat.genericGetters (g : GenFormat) : List Getter := g.getters.filter (·.field.isNone)
 def GenFormat.genericSetters (g : GenFormat) : List Setter := g.setters.filter (·.field.isNone)
+
+end O1722
+
+namespace O1722
+
+/-! ### access logs of recognised accessors -/
+
+def Getter.log (g : Getter) (tbl : List Desc) (e : Endian) (m : Mem) (pdu : Option Nat)
+    (arg : Nat) : List Access :=
+  (getFieldLog e tbl g.numFields m pdu (fieldArg g.field g.fieldCastBits arg)).2
+
+def Setter.log (s : Setter) (tbl : List Desc) (e : Endian) (m : Mem) (pdu : Option Nat)
+    (arg v : Nat) : List Access :=
+  (setFieldLog e tbl s.numFields m pdu (fieldArg s.field s.fieldCastBits arg) (v % 2 ^ s.valueBits)).2
+
+/-! ### initialisers -/
+
+/-- Replace `X_Init(pdu)` calls by the steps of that (current-API) initialiser. -/
+def GenFormat.flatten (g : GenFormat) : List InitStep → Option (List InitStep)
+  | [] => some []
+  | .callInit fn :: rest =>
+    match g.inits.find? (fun i => i.fn == fn && !i.legacy), g.flatten rest with
+    | some i, some r =>
+      if i.steps.all (fun st => match st with | .callInit _ => false | _ => true) then some (i.steps ++ r) else none
+    | _, _ => none
+  | st :: rest => (g.flatten rest).map (st :: ·)
+
+/-- One (flattened) initialiser step on a non-NULL PDU; `none` = not understood.
+    `param` is the value of the initialiser's extra parameter, if it has one. -/
+def InitStep.run (g : GenFormat) (e : Endian) (pdu param : Nat) (st : InitStep) (m : Mem) : Option Mem :=
+  match st with
+  | .memset0 _ len => some (zeroFill m pdu len)
+  | .setField fn _ fieldVal value =>
+    match g.findSetter fn with
+    | some x => if x.field.isNone then some (x.run g.table e m (some pdu) fieldVal value) else none
+    | none => none
+  | .setConst fn value =>
+    match g.findSetter fn with
+    | some x => if x.field.isSome then some (x.run g.table e m (some pdu) 0 value) else none
+    | none => none
+  | .setParam fn bits =>
+    match g.findSetter fn with
+    | some x => if x.field.isSome then some (x.run g.table e m (some pdu) 0 (param % 2 ^ bits)) else none
+    | none => none
+  | .checkedSet fn _ fieldVal value =>
+    -- `res = legacy_set(pdu, FIELD, CONST); if (res < 0) return res;` with a valid FIELD
+    match g.legacy.find? (fun l => l.fn == fn && !l.isGet) with
+    | some l =>
+      match g.findSetter l.fwd, l.bound with
+      | some x, some b =>
+        if x.field.isNone ∧ fieldVal < b then
+          some (x.run g.table e m (some pdu) fieldVal (value % 2 ^ l.valBits)) else none
+      | _, _ => none
+    | none => none
+  | .callInit _ => none
+
+def runSteps (g : GenFormat) (e : Endian) (pdu param : Nat) : List InitStep → Mem → Option Mem
+  | [], m => some m
+  | st :: rest, m => (st.run g e pdu param m).bind (runSteps g e pdu param rest)
+
+/-- Run an initialiser: resulting memory and return value (0 for `void`). -/
+def Init.run (i : Init) (g : GenFormat) (e : Endian) (m : Mem) (pdu : Option Nat) (param : Nat) :
+    Option (Mem × Int) :=
+  match pdu with
+  | none => some (m, if i.legacy then i.err else 0)
+  | some p =>
+    match g.flatten i.steps with
+    | some steps => (runSteps g e p param steps m).map (fun m' => (m', if i.legacy then i.ok else 0))
+    | none => none
 
 end O1722
